@@ -8,6 +8,7 @@ package harness
 import (
 	"context"
 	"fmt"
+	"runtime"
 	"sync"
 	"time"
 
@@ -443,7 +444,80 @@ func c10Units(tier string, seed int64) []Unit {
 			}
 		}
 	}})
+	// An invocation can also end by runtime.Goexit: Skip / FailNow / a require-style helper bound to the *enclosing*
+	// *testing.T ends the goroutine, and only deferred calls run. The k-th invocation of the property (or of a Custom
+	// generator function) ends that way, after its recipe; Check, the MakeFuzz body and Example run on a goroutine of their own.
+	units = append(units, Unit{Name: "C10/invocation-ends-by-Goexit", Run: func(c *Ctx) {
+		recipes := []Beh{BRcpNone, BRcp1, BRcp3, BRcpNested, BRcpPanicMid, BRcpErrorfMid, BRcpCtxInCleanup, BRcpCustom, BRcpCtxOnlyInCleanup, BRcpGoroutineCleanup, BRcpNilCleanup, BRcpOldestRegistersThenPanics}
+		onGoroutine := func(f func()) {
+			done := make(chan struct{})
+			go func() {
+				defer close(done)
+				defer func() { recover() }()
+				f()
+			}()
+			<-done
+		}
+		for _, b := range recipes {
+			for _, where := range []string{"check-body", "check-custom", "fuzz-body", "example-custom"} {
+				for _, k := range []int{1, 2, 7} {
+					mon := &c10Mon{ctxs: map[int]context.Context{}}
+					n := 0
+					body := func(t *rapid.T) {
+						sc := mon.newScope()
+						mon.ev("begin", sc, 0)
+						defer mon.ev("end", sc, 0)
+						mon.useCtx(t, sc, 0)
+						rapid.Int16().Draw(t, "x")
+						c10Perform(t, mon, sc, b, "gx")
+						n++
+						if n == k {
+							runtime.Goexit()
+						}
+					}
+					g := rapid.Custom(func(t *rapid.T) int { body(t); return 0 })
+					CleanFailFiles()
+					switch where {
+					case "check-body":
+						onGoroutine(func() { c10Check(body) })
+					case "check-custom":
+						onGoroutine(func() {
+							c10Check(func(t *rapid.T) { g.Draw(t, "g") })
+						})
+					case "fuzz-body":
+						for i := 0; i < k; i++ {
+							input := wordsToBytes([]uint64{uint64(i) * 0x9e3779b97f4a7c15, uint64(i), 3, 1, 0, 7})
+							onGoroutine(func() { rapid.VerifCheckFuzz(NewTB("fuzz"), body, input) })
+						}
+					case "example-custom":
+						for i := 0; i < k; i++ {
+							onGoroutine(func() { g.Example(i) })
+						}
+					}
+					mon.check()
+					c.R.Evals++
+					c.R.States++
+					c.R.Transitions += int64(len(mon.events))
+					c.Outcome(fmt.Sprintf("goexit %s %s k=%d scopes=%d reached=%v", where, b, k, mon.scopes, n >= k), n >= k)
+					if n < k && b != BRcpPanicMid && b != BRcpErrorfMid && b != BRcpOldestRegistersThenPanics {
+						mon.bad("harness: the %d-th invocation was never reached (%d ran)", k, n)
+					}
+					if len(mon.errs) > 0 {
+						c.Violate(Violation{Sig: "C10 goexit " + where + " " + sigOf(mon.errs[0]), Detail: fmt.Sprintf("recipe %s, invocation %d of %s ends by runtime.Goexit: %v", b, k, where, mon.errs),
+							Replay: map[string]any{"engine": "goexit", "where": where, "recipe": b.String(), "k": k}})
+					}
+				}
+			}
+		}
+	}})
 	return units
+}
+
+// c10Check runs the public Check on a fake TB with fixed flags (10 checks, seed 77, no fail file).
+func c10Check(body func(*rapid.T)) {
+	setFlags(Config{Checks: 10, Seed: 77, ShrinkMS: -1, NoFailFile: true})
+	tb := NewTB("TestC10Goexit")
+	Guard(func() { rapid.Check(tb, body) })
 }
 
 // sigOf strips numbers from a monitor message so that the signature is stable.
